@@ -1,37 +1,59 @@
-(* CoreGenProofs.v — the hand-written model of the core functions of src/lib.rs
-   (theories/Buf.v) is the model that tools/rs2coq_core regenerates from the
-   source text on every run (CoreGen.v: gen_add_mod, ..., gen_make_contiguous).
+(* CoreGenProofs.v — the hand-written model of the crate (theories/Buf.v, Iter.v,
+   Drain.v, Traits.v, Io.v) is the model that tools/rs2coq_core regenerates from the
+   source text on every run (CoreGen.v: gen_add_mod, ..., gen_make_contiguous,
+   gen_drop_range, gen_fill, gen_translate_range_bounds, gen_slice_take,
+   gen_Iter_advance_back_by, ..., gen_Drain_drop, ..., gen_aio_consume).
 
    This file is a template: it is never compiled in the tracked tree. The check
    (tools/coregen.py) splits it at the markers (*@ ... *), and compiles, in a
    cache directory next to the freshly generated CoreGen.v,
        CGCommon.v       the part "common"  (tactics and frame lemmas; independent
                         of CoreGen.v)
-       CG_<f>.v         "prelude" + the sections of the arithmetic functions f
-                        calls + the section "fn <f>", one file per translated
-                        function, so that a failure names its function
+       CG_<f>.v         Require of the CG_<g>.vo of the functions g that f calls
+                        (and, among their callees, of the arithmetic functions and
+                        of the functions with loops) + "prelude" + the section
+                        "fn <f>", one file per translated function, so that a
+                        failure names its function; a function is attempted when
+                        the lemmas it imports exist
    with   coqc -Q coq/theories CB -Q <cachedir> CBG <file>.
-   On the unchanged source the file also compiles as a whole.
+   On the unchanged source the file also compiles as a whole (several minutes:
+   every lemma is then a rewrite hint of every later proof).
 
-   Every lemma is   gen_f args s w = f args s w   for all arguments, states and
-   worlds: pointwise equality of the two state transformers, no functional
-   extensionality, no axioms (each is followed by Print Assumptions).
+   Every lemma is   gen_f args s w = f args s w   (or = ret (f args) s w where the
+   model's f is a pure function) for all arguments, states and worlds: pointwise
+   equality of the two state transformers, no functional extensionality, no
+   axioms (each is followed by Print Assumptions). `&mut` parameters (an iterator,
+   a `&mut &[T]`) are state-passing on both sides: the function takes the value and
+   hands back the new one together with its result.
 
    How they are proved. Where the two terms are convertible, by reflexivity.
    Otherwise by symbolic execution (core_eq): the state and the world are split
-   into their fields, every definition of both sides is opened down to the
-   machine operations, and then, repeatedly, the test on which the evaluation of
-   either side is stuck is decided both ways (a test already decided is not
-   decided again). uadd / usub / umul / add_mod / sub_mod are not opened: they
-   leave state and world alone (frame lemmas, proved below once), so only their
-   result is split into Ok / Panic. Every path ends in two closed triples
-   (outcome, state, world), compared by reflexivity; when the two sides decided
-   equivalent tests that are written differently (0 == self.size), the
-   impossible combinations are closed by lia. No monad law is needed as a
-   rewrite: bind, ret and the accessors compute. *)
+   into their fields (and the records among the arguments into theirs), every
+   definition of both sides is opened down to the machine operations, and then,
+   repeatedly, the test on which the evaluation of either side is stuck is decided
+   both ways (a test already decided is not decided again). uadd / usub / umul /
+   add_mod / sub_mod are not opened: they leave state and world alone (frame
+   lemmas, proved below once), so only their result is split into Ok / Panic.
+   User code (drop_elem, drop_slice, clone_elem, call_closure) is not opened
+   either: both sides run it in the same state, and its result is split. Every
+   path ends in two closed triples (outcome, state, world), compared by
+   reflexivity; when the two sides decided equivalent tests that are written
+   differently (0 == self.size), the impossible combinations are closed by lia.
+   No monad law is needed as a rewrite: bind, ret, finally, on_unwind and the
+   accessors compute.
+
+   The functions beyond the single-element core are first tried modularly
+   (core_eq_mod): only gen_f and the model's f are opened; a call gen_g args s w
+   is rewritten to g args s w by g's own lemma, and is then the same opaque
+   computation on both sides. When the model is not built from the same calls,
+   core_eq decides.
+
+   A `while` loop is a Fixpoint on fuel on both sides; the generated one is
+   identified with the model's by induction on the fuel (loop_eq), and callers
+   rewrite with that lemma. *)
 
 (*@ common *)
-From CB Require Import Machine Buf.
+From CB Require Import Machine Buf Iter Drain Traits Io.
 From Coq Require Import ZifyBool.
 Open Scope Z_scope.
 
@@ -57,11 +79,16 @@ Ltac cg_is_stuck t :=
   end.
 
 Ltac cg_rdx :=
-  cbv beta iota zeta delta [cap size start items dbg next_id log fault fst snd].
+  cbv beta iota zeta delta
+    [ret cap size start items dbg next_id log fault fst snd soff slen
+     it_right it_left d_buf_size d_rs d_re d_is d_ie c_len c_off].
 
 (* the machine operations and the hand-written model, opened; not opened:
-   uadd usub umul add_mod sub_mod (frame lemmas), drop_range (no generated
-   counterpart), and the store functions s_write s_copy s_swap s_rotate_left *)
+   uadd usub umul add_mod sub_mod (frame lemmas), the loops of the model
+   (drain_fill_loop, fill_spare_loop, fill_spare_with_loop, wusc_loop: identified with
+   the generated loops by induction on the fuel), the user code (drop_elem,
+   drop_slice, drop_opt, clone_elem, call_closure: whatever they do, both sides do
+   it in the same state) and the store functions s_write s_copy s_swap s_rotate_left *)
 Ltac cg_open :=
   cbv beta iota zeta delta
     [bind ret panic get put get_cap get_size get_start set_size set_start set_items get_items
@@ -73,17 +100,135 @@ Ltac cg_open :=
      get_maybe_uninit get_maybe_uninit_mut slices_uninit_mut inc_start dec_start inc_size dec_size
      back back_mut front front_mut get_ get_mut nth_front nth_front_mut nth_back nth_back_mut
      push_back try_push_back push_front try_push_front pop_back pop_front remove swap
-     swap_remove_back swap_remove_front truncate_back truncate_front clear].
+     swap_remove_back swap_remove_front truncate_back truncate_front clear
+     finally on_unwind drop_range fill fill_spare fill_with fill_spare_with drop_buf
+     translate_range_bounds slice_take slice_take_mut slice_take_first slice_take_last
+     slice_take_first_mut slice_take_last_mut iter_empty iter_new advance_front_by advance_back_by
+     iter_over_range iter_next iter_next_back iter_len iter_clone iter_default
+     iter_mut_new iter_mut_over_range iter_mut_empty iter_mut_default iter_mut_next iter_mut_next_back
+     iter_mut_len into_iter_next into_iter_next_back into_iter_len into_iter_drop
+     it_right it_left d_buf_size d_rs d_re d_is d_ie c_len c_off
+     drain_over_range drain_read drain_as_slices drain_as_mut_slices drain_next drain_next_back
+     range_len drain_len csp_new csp_as_ptr csp_available_len csp_add drain_drop
+     index index_mut extend_from_slice
+     io_write io_flush io_read io_fill_buf io_consume eio_write eio_flush eio_read eio_fill_buf eio_consume
+     aio_write aio_flush aio_read aio_fill_buf aio_consume].
+
+(* ---- the capacity is a constant of the state: the computations that are never opened
+   (user code, and the model's write_uninit_slice_cloned) leave it alone, so the state
+   after them is a record with the same capacity and otherwise unknown fields ---------- *)
+Definition keeps_cap {A} (m : M A) : Prop := forall s w, cap (snd (fst (m s w))) = cap s.
+
+Lemma kc_split A (m : M A) : keeps_cap m ->
+  forall s w, exists o sz st it w', m s w = (o, mkB (cap s) sz st it, w').
+Proof.
+  intros K s w. specialize (K s w). destruct (m s w) as [[o [c sz st it]] w'].
+  cbn in K. subst. eauto 10.
+Qed.
+
+Lemma kc_ret A (a : A) : keeps_cap (ret a).
+Proof. intros s w; reflexivity. Qed.
+Lemma kc_panic A k : keeps_cap (@panic A k).
+Proof. intros s w; reflexivity. Qed.
+Lemma kc_bind A B (m : M A) (k : A -> M B) :
+  keeps_cap m -> (forall a, keeps_cap (k a)) -> keeps_cap (bind m k).
+Proof.
+  intros Hm Hk s w. unfold bind. specialize (Hm s w).
+  destruct (m s w) as [[[a|p] s'] w']; cbn in *; [rewrite Hk|]; assumption.
+Qed.
+Lemma kc_finally A (m : M A) c : keeps_cap m -> keeps_cap c -> keeps_cap (finally m c).
+Proof.
+  intros Hm Hc s w. unfold finally. specialize (Hm s w).
+  destruct (m s w) as [[r s1] w1]; cbn in *. specialize (Hc s1 w1).
+  destruct (c s1 w1) as [[[u|p] s2] w2]; cbn in *; [|destruct r]; cbn; congruence.
+Qed.
+Lemma kc_on_unwind A (m : M A) c : keeps_cap m -> keeps_cap c -> keeps_cap (on_unwind m c).
+Proof.
+  intros Hm Hc s w. unfold on_unwind. specialize (Hm s w).
+  destruct (m s w) as [[[a|p] s1] w1]; cbn in *; [assumption|]. specialize (Hc s1 w1).
+  destruct (c s1 w1) as [[[u|q] s2] w2]; cbn in *; congruence.
+Qed.
+
+Ltac kc_basic :=
+  intros [c0 sz0 st0 it0] [d0 n0 l0 f0];
+  cbv beta iota zeta delta
+    [bind ret panic emit user_call fresh_id get_items set_items read_slot write_slot sl_index sl_range
+     dassert assert_ w_log w_fault w_next b_items cap size start items dbg next_id log fault fst snd
+     andb negb];
+  repeat match goal with
+         | |- context [match ?x with _ => _ end] =>
+           lazymatch x with
+           | context [match _ with _ => _ end] => fail
+           | _ => destruct x
+           end
+         end; reflexivity.
+
+Lemma kc_drop_elem e : keeps_cap (drop_elem e).
+Proof. unfold drop_elem. kc_basic. Qed.
+Lemma kc_drop_list es : keeps_cap (drop_list es).
+Proof. induction es; cbn [drop_list]; [apply kc_ret | apply kc_finally; [apply kc_drop_elem | assumption]]. Qed.
+Lemma kc_drop_slice sl : keeps_cap (drop_slice sl).
+Proof. intros s w. unfold drop_slice, bind, get_items. apply kc_drop_list. Qed.
+Lemma kc_drop_opt o : keeps_cap (drop_opt o).
+Proof. destruct o; [apply kc_drop_elem | apply kc_ret]. Qed.
+Lemma kc_clone_elem e : keeps_cap (clone_elem e).
+Proof. unfold clone_elem. kc_basic. Qed.
+Lemma kc_call_closure : keeps_cap call_closure.
+Proof. unfold call_closure. kc_basic. Qed.
+Lemma kc_sl_index sl i : keeps_cap (sl_index sl i).
+Proof. unfold sl_index. kc_basic. Qed.
+Lemma kc_sl_range sl a b : keeps_cap (sl_range sl a b).
+Proof. unfold sl_range. kc_basic. Qed.
+Lemma kc_write_slot p e : keeps_cap (write_slot p e).
+Proof. kc_basic. Qed.
+Lemma kc_dassert c : keeps_cap (dassert c).
+Proof. kc_basic. Qed.
+Lemma kc_wusc_loop dst src n : forall i, keeps_cap (wusc_loop dst src n i).
+Proof.
+  induction n; intro i; cbn [wusc_loop]; [apply kc_ret|].
+  apply kc_bind; [|intro; apply IHn].
+  apply kc_on_unwind.
+  - apply kc_bind; [apply kc_sl_index|intro p].
+    apply kc_bind; [destruct (nth_error src (Z.to_nat i)); [apply kc_ret|apply kc_panic]|intro e].
+    apply kc_bind; [apply kc_clone_elem|intro c]. apply kc_write_slot.
+  - apply kc_bind; [apply kc_sl_range|intro g; apply kc_drop_slice].
+Qed.
+Lemma kc_write_uninit_slice_cloned dst src : keeps_cap (write_uninit_slice_cloned dst src).
+Proof. unfold write_uninit_slice_cloned. apply kc_bind; [apply kc_dassert|intro; apply kc_wusc_loop]. Qed.
+
+Create HintDb cg_kc discriminated.
+#[export] Hint Resolve kc_drop_elem kc_drop_list kc_drop_slice kc_drop_opt kc_clone_elem kc_call_closure
+  kc_write_uninit_slice_cloned : cg_kc.
+
+Ltac cg_kc_split c :=
+  lazymatch c with
+  | ?m ?s ?w =>
+    let K := fresh "K" in
+    assert (K : keeps_cap m) by (auto with cg_kc nocore);
+    let E := fresh "E" in
+    destruct (kc_split _ m K s w) as (? & ? & ? & ? & ? & E); rewrite E; clear K
+  end.
+
+Check kc_split. Print Assumptions kc_split.
+Check kc_write_uninit_slice_cloned. Print Assumptions kc_write_uninit_slice_cloned.
 
 Create HintDb cg_eq discriminated.
+
+Ltac cg_facts := idtac.      (* redefined after the frame lemmas *)
 
 Ltac cg_split c :=
   lazymatch goal with
   | H : c = _ |- _ => rewrite H
-  | _ => destruct c eqn:?
+  | _ => destruct c eqn:?; cg_facts
   end; cg_rdx.
 
 Ltac cg_frame_rewrite c := fail.   (* redefined after the frame lemmas *)
+
+(* an induction hypothesis about a loop (see loop_eq), where the evaluation reaches the loop *)
+Ltac cg_ih_rewrite :=
+  match goal with
+  | IH : forall _, _ |- _ => rewrite IH
+  end.
 
 Ltac cg_step_side t :=
   cg_is_stuck t;
@@ -91,7 +236,10 @@ Ltac cg_step_side t :=
   lazymatch type of c with
   | (outcome _ * cbuf * world)%type =>
     first [ cg_frame_rewrite c; cg_rdx
+          | cg_ih_rewrite; cg_rdx
           | progress (autorewrite with cg_eq); cg_rdx
+          | lazymatch goal with H : c = _ |- _ => rewrite H end; cg_rdx
+          | cg_kc_split c; cg_rdx
           | cg_split c ]
   | _ => cg_split c
   end.
@@ -101,15 +249,30 @@ Ltac cg_step :=
   | |- ?L = ?R => first [ cg_step_side L | cg_step_side R ]
   end.
 
-Ltac cg_finish :=
+Ltac cg_close :=
   first [ reflexivity
         | repeat match goal with u : unit |- _ => destruct u end; reflexivity
+        | cg_ih_rewrite; reflexivity
+        | progress (autorewrite with cg_eq); reflexivity
+        | repeat match goal with
+                 | x : iter |- _ => destruct x
+                 | x : drain |- _ => destruct x
+                 | x : csp |- _ => destruct x
+                 | x : slice |- _ => destruct x
+                 | x : (_ * _)%type |- _ => destruct x
+                 end; reflexivity
         | exfalso; congruence
         | exfalso; lia
-        | repeat f_equal; lia
+        | repeat f_equal; lia ].
+
+Ltac cg_finish :=
+  first [ cg_close
         | lazymatch goal with |- ?L = ?R => fail 1000 "the two sides differ on a path:" L "<>" R end ].
 
 Ltac cg_run := tryif cg_step then cg_run else cg_finish.
+
+(* the same, failing in a way that leaves room for another attempt *)
+Ltac cg_run_soft := tryif cg_step then cg_run_soft else cg_close.
 
 (* ---- frame lemmas: these operations leave state and world alone ---------- *)
 
@@ -161,16 +324,56 @@ Ltac cg_frame_rewrite c ::=
   | sub_mod _ _ _ _ _ => rewrite sub_mod_frame
   end.
 
+(* what a result of usub / uadd is (the frame lemmas forget it); used by lia where the two
+   sides decided differently written tests *)
+Lemma usub_val x y n d a : pure_res (usub x y) n d = Ok a -> a = x - y \/ (x < y /\ a = x - y + W).
+Proof.
+  unfold pure_res, usub; cbn. destruct (y <=? x) eqn:E; [|destruct d]; cbn; intro H; inversion H; lia.
+Qed.
+Lemma uadd_val x y n d a : pure_res (uadd x y) n d = Ok a -> a = x + y \/ (W <= x + y /\ a = x + y - W).
+Proof.
+  unfold pure_res, uadd; cbn. destruct (x + y <? W) eqn:E; [|destruct d]; cbn; intro H; inversion H; lia.
+Qed.
+
+Ltac cg_facts ::=
+  try match goal with
+      | H : pure_res (usub ?x ?y) ?n ?d = Ok ?a |- _ =>
+        lazymatch goal with
+        | _ : a = x - y \/ _ |- _ => fail
+        | _ => pose proof (usub_val x y n d a H)
+        end
+      | H : pure_res (uadd ?x ?y) ?n ?d = Ok ?a |- _ =>
+        lazymatch goal with
+        | _ : a = x + y \/ _ |- _ => fail
+        | _ => pose proof (uadd_val x y n d a H)
+        end
+      end.
+
 Check uadd_frame. Print Assumptions uadd_frame.
 Check usub_frame. Print Assumptions usub_frame.
 Check umul_frame. Print Assumptions umul_frame.
 Check add_mod_frame. Print Assumptions add_mod_frame.
 Check sub_mod_frame. Print Assumptions sub_mod_frame.
 
+(* the capacity is also left alone by the functions of the model that stay folded in the
+   modular proof of extend_from_slice *)
+Ltac kc_run cg_open_tac :=
+  intros [cap0 size0 start0 items0] [dbg0 nid0 log0 fault0]; cg_open_tac;
+  cbv beta iota zeta delta [cap fst snd];
+  repeat (lazymatch goal with |- ?L = _ => cg_step_side L end);
+  reflexivity.
+Lemma kc_truncate_front k : keeps_cap (truncate_front k).
+Proof. kc_run cg_open. Qed.
+Lemma kc_clear : keeps_cap clear.
+Proof. kc_run cg_open. Qed.
+Lemma kc_slices_uninit_mut : keeps_cap slices_uninit_mut.
+Proof. kc_run cg_open. Qed.
+#[export] Hint Resolve kc_truncate_front kc_clear kc_slices_uninit_mut : cg_kc.
+
 (*@ prelude *)
 (* in the whole-file build the common part is above; in the split build it is
    the compiled CGCommon.v *)
-From CB Require Import Machine Buf.
+From CB Require Import Machine Buf Iter Drain Traits Io.
 From Coq Require Import ZifyBool.
 From CBG Require Import CoreGen.
 Open Scope Z_scope.
@@ -179,6 +382,20 @@ Open Scope Z_scope.
    at the end of CoreGen.v) opens every gen_ definition except the two
    arithmetic ones, which are rewritten to the model's (Hint Rewrite ... :
    cg_eq in their sections) when the evaluation reaches them. *)
+(* a hypothesis about the capacity of the state (0 <= cap s), once the state is split *)
+Ltac cg_state_hyps :=
+  repeat match goal with
+         | H : context [cap (mkB _ _ _ _)] |- _ => progress cbn [cap] in H
+         end.
+
+Ltac cg_records :=
+  repeat match goal with
+         | x : iter |- _ => destruct x
+         | x : drain |- _ => destruct x
+         | x : csp |- _ => destruct x
+         | x : slice |- _ => destruct x
+         end.
+
 Ltac core_eq :=
   intros;
   first
@@ -187,7 +404,51 @@ Ltac core_eq :=
       | s : cbuf, w : world |- _ =>
         destruct s as [cap0 size0 start0 items0]; destruct w as [dbg0 nid0 log0 fault0]
       end;
+      cg_state_hyps;
+      cg_records;
       timeout 200 (coregen_unfold; cg_open; cg_run) ].
+
+(* a generated loop is the loop of the model: by induction on the fuel; one step of
+   each is opened, the rest is core_eq with the induction hypothesis *)
+Ltac loop_eq g h :=
+  let f := fresh "fuel" in let IH := fresh "IH" in
+  intro f; induction f as [|f IH]; intros;
+  lazymatch goal with
+  | s : cbuf, w : world |- _ =>
+    destruct s as [cap0 size0 start0 items0]; destruct w as [dbg0 nid0 log0 fault0]
+  end;
+  cg_records;
+  cbn [g h];
+  timeout 200 (coregen_unfold; cg_open; cg_run).
+
+(* the same, but the functions gen_f calls are not opened: where the evaluation reaches
+   gen_g args s w it is rewritten to g args s w (g's own lemma, imported from g's file),
+   the model's f is opened alone, and the call of g is then the same opaque computation on
+   both sides. When the model of f is not built from the same calls this fails and core_eq
+   (everything opened) decides. g: gen_f, h: the model's f. *)
+Ltac cg_open_one h :=
+  cbv beta iota zeta delta
+    [bind ret panic get put get_cap get_size get_start set_size set_start set_items get_items
+     dassert assert_ urem overflowing_add checked_add checked_sub b2z andb orb negb
+     items_slice sl_range sl_split_at sl_index idx read_slot write_slot raw_copy empty_slice
+     b_size b_start b_items cap size start items dbg next_id log fault soff slen fst snd
+     finally on_unwind it_right it_left d_buf_size d_rs d_re d_is d_ie c_len c_off
+     gen_mem_replace gen_swap_nonoverlapping gen_rotate_left gen_range_next gen_range_next_back
+     gen_range_len range_len gen_split_first gen_split_last gen_repr_guard gen_bounds_check h].
+
+Ltac core_eq_mod g h :=
+  intros;
+  first
+    [ reflexivity
+    | lazymatch goal with
+      | s : cbuf, w : world |- _ =>
+        destruct s as [cap0 size0 start0 items0]; destruct w as [dbg0 nid0 log0 fault0]
+      end;
+      cg_state_hyps;
+      cg_records;
+      first [ unfold g; progress (autorewrite with cg_eq); reflexivity
+            | timeout 100 (unfold g; cg_open_one h; cg_run_soft) ]
+    | core_eq ].
 
 (*@ fn add_mod *)
 Lemma gen_add_mod_eq : forall x y m s w, gen_add_mod x y m s w = add_mod x y m s w.
@@ -222,246 +483,802 @@ Print Assumptions gen_sub_mod_eq.
 (*@ fn len *)
 Lemma gen_len_eq : forall s w, gen_len s w = len s w.
 Proof. core_eq. Qed.
+#[export] Hint Rewrite gen_len_eq : cg_eq.
 Check gen_len_eq.
 Print Assumptions gen_len_eq.
 
 (*@ fn capacity *)
 Lemma gen_capacity_eq : forall s w, gen_capacity s w = capacity s w.
 Proof. core_eq. Qed.
+#[export] Hint Rewrite gen_capacity_eq : cg_eq.
 Check gen_capacity_eq.
 Print Assumptions gen_capacity_eq.
 
 (*@ fn is_empty *)
 Lemma gen_is_empty_eq : forall s w, gen_is_empty s w = is_empty s w.
 Proof. core_eq. Qed.
+#[export] Hint Rewrite gen_is_empty_eq : cg_eq.
 Check gen_is_empty_eq.
 Print Assumptions gen_is_empty_eq.
 
 (*@ fn is_full *)
 Lemma gen_is_full_eq : forall s w, gen_is_full s w = is_full s w.
 Proof. core_eq. Qed.
+#[export] Hint Rewrite gen_is_full_eq : cg_eq.
 Check gen_is_full_eq.
 Print Assumptions gen_is_full_eq.
 
 (*@ fn inc_start *)
 Lemma gen_inc_start_eq : forall s w, gen_inc_start s w = inc_start s w.
 Proof. core_eq. Qed.
+#[export] Hint Rewrite gen_inc_start_eq : cg_eq.
 Check gen_inc_start_eq.
 Print Assumptions gen_inc_start_eq.
 
 (*@ fn dec_start *)
 Lemma gen_dec_start_eq : forall s w, gen_dec_start s w = dec_start s w.
 Proof. core_eq. Qed.
+#[export] Hint Rewrite gen_dec_start_eq : cg_eq.
 Check gen_dec_start_eq.
 Print Assumptions gen_dec_start_eq.
 
 (*@ fn inc_size *)
 Lemma gen_inc_size_eq : forall s w, gen_inc_size s w = inc_size s w.
 Proof. core_eq. Qed.
+#[export] Hint Rewrite gen_inc_size_eq : cg_eq.
 Check gen_inc_size_eq.
 Print Assumptions gen_inc_size_eq.
 
 (*@ fn dec_size *)
 Lemma gen_dec_size_eq : forall s w, gen_dec_size s w = dec_size s w.
 Proof. core_eq. Qed.
+#[export] Hint Rewrite gen_dec_size_eq : cg_eq.
 Check gen_dec_size_eq.
 Print Assumptions gen_dec_size_eq.
 
 (*@ fn front_maybe_uninit *)
 Lemma gen_front_maybe_uninit_eq : forall s w, gen_front_maybe_uninit s w = front_maybe_uninit s w.
 Proof. core_eq. Qed.
+#[export] Hint Rewrite gen_front_maybe_uninit_eq : cg_eq.
 Check gen_front_maybe_uninit_eq.
 Print Assumptions gen_front_maybe_uninit_eq.
 
 (*@ fn front_maybe_uninit_mut *)
 Lemma gen_front_maybe_uninit_mut_eq : forall s w, gen_front_maybe_uninit_mut s w = front_maybe_uninit_mut s w.
 Proof. core_eq. Qed.
+#[export] Hint Rewrite gen_front_maybe_uninit_mut_eq : cg_eq.
 Check gen_front_maybe_uninit_mut_eq.
 Print Assumptions gen_front_maybe_uninit_mut_eq.
 
 (*@ fn back_maybe_uninit *)
 Lemma gen_back_maybe_uninit_eq : forall s w, gen_back_maybe_uninit s w = back_maybe_uninit s w.
 Proof. core_eq. Qed.
+#[export] Hint Rewrite gen_back_maybe_uninit_eq : cg_eq.
 Check gen_back_maybe_uninit_eq.
 Print Assumptions gen_back_maybe_uninit_eq.
 
 (*@ fn back_maybe_uninit_mut *)
 Lemma gen_back_maybe_uninit_mut_eq : forall s w, gen_back_maybe_uninit_mut s w = back_maybe_uninit_mut s w.
 Proof. core_eq. Qed.
+#[export] Hint Rewrite gen_back_maybe_uninit_mut_eq : cg_eq.
 Check gen_back_maybe_uninit_mut_eq.
 Print Assumptions gen_back_maybe_uninit_mut_eq.
 
 (*@ fn get_maybe_uninit *)
 Lemma gen_get_maybe_uninit_eq : forall index s w, gen_get_maybe_uninit index s w = get_maybe_uninit index s w.
 Proof. core_eq. Qed.
+#[export] Hint Rewrite gen_get_maybe_uninit_eq : cg_eq.
 Check gen_get_maybe_uninit_eq.
 Print Assumptions gen_get_maybe_uninit_eq.
 
 (*@ fn get_maybe_uninit_mut *)
 Lemma gen_get_maybe_uninit_mut_eq : forall index s w, gen_get_maybe_uninit_mut index s w = get_maybe_uninit_mut index s w.
 Proof. core_eq. Qed.
+#[export] Hint Rewrite gen_get_maybe_uninit_mut_eq : cg_eq.
 Check gen_get_maybe_uninit_mut_eq.
 Print Assumptions gen_get_maybe_uninit_mut_eq.
 
 (*@ fn back *)
 Lemma gen_back_eq : forall s w, gen_back s w = back s w.
 Proof. core_eq. Qed.
+#[export] Hint Rewrite gen_back_eq : cg_eq.
 Check gen_back_eq.
 Print Assumptions gen_back_eq.
 
 (*@ fn back_mut *)
 Lemma gen_back_mut_eq : forall s w, gen_back_mut s w = back_mut s w.
 Proof. core_eq. Qed.
+#[export] Hint Rewrite gen_back_mut_eq : cg_eq.
 Check gen_back_mut_eq.
 Print Assumptions gen_back_mut_eq.
 
 (*@ fn front *)
 Lemma gen_front_eq : forall s w, gen_front s w = front s w.
 Proof. core_eq. Qed.
+#[export] Hint Rewrite gen_front_eq : cg_eq.
 Check gen_front_eq.
 Print Assumptions gen_front_eq.
 
 (*@ fn front_mut *)
 Lemma gen_front_mut_eq : forall s w, gen_front_mut s w = front_mut s w.
 Proof. core_eq. Qed.
+#[export] Hint Rewrite gen_front_mut_eq : cg_eq.
 Check gen_front_mut_eq.
 Print Assumptions gen_front_mut_eq.
 
 (*@ fn get *)
 Lemma gen_get_eq : forall index s w, gen_get index s w = get_ index s w.
 Proof. core_eq. Qed.
+#[export] Hint Rewrite gen_get_eq : cg_eq.
 Check gen_get_eq.
 Print Assumptions gen_get_eq.
 
 (*@ fn get_mut *)
 Lemma gen_get_mut_eq : forall index s w, gen_get_mut index s w = get_mut index s w.
 Proof. core_eq. Qed.
+#[export] Hint Rewrite gen_get_mut_eq : cg_eq.
 Check gen_get_mut_eq.
 Print Assumptions gen_get_mut_eq.
 
 (*@ fn nth_front *)
 Lemma gen_nth_front_eq : forall index s w, gen_nth_front index s w = nth_front index s w.
 Proof. core_eq. Qed.
+#[export] Hint Rewrite gen_nth_front_eq : cg_eq.
 Check gen_nth_front_eq.
 Print Assumptions gen_nth_front_eq.
 
 (*@ fn nth_front_mut *)
 Lemma gen_nth_front_mut_eq : forall index s w, gen_nth_front_mut index s w = nth_front_mut index s w.
 Proof. core_eq. Qed.
+#[export] Hint Rewrite gen_nth_front_mut_eq : cg_eq.
 Check gen_nth_front_mut_eq.
 Print Assumptions gen_nth_front_mut_eq.
 
 (*@ fn nth_back *)
 Lemma gen_nth_back_eq : forall index s w, gen_nth_back index s w = nth_back index s w.
 Proof. core_eq. Qed.
+#[export] Hint Rewrite gen_nth_back_eq : cg_eq.
 Check gen_nth_back_eq.
 Print Assumptions gen_nth_back_eq.
 
 (*@ fn nth_back_mut *)
 Lemma gen_nth_back_mut_eq : forall index s w, gen_nth_back_mut index s w = nth_back_mut index s w.
 Proof. core_eq. Qed.
+#[export] Hint Rewrite gen_nth_back_mut_eq : cg_eq.
 Check gen_nth_back_mut_eq.
 Print Assumptions gen_nth_back_mut_eq.
 
 (*@ fn push_back *)
 Lemma gen_push_back_eq : forall item s w, gen_push_back item s w = push_back item s w.
 Proof. core_eq. Qed.
+#[export] Hint Rewrite gen_push_back_eq : cg_eq.
 Check gen_push_back_eq.
 Print Assumptions gen_push_back_eq.
 
 (*@ fn try_push_back *)
 Lemma gen_try_push_back_eq : forall item s w, gen_try_push_back item s w = try_push_back item s w.
 Proof. core_eq. Qed.
+#[export] Hint Rewrite gen_try_push_back_eq : cg_eq.
 Check gen_try_push_back_eq.
 Print Assumptions gen_try_push_back_eq.
 
 (*@ fn push_front *)
 Lemma gen_push_front_eq : forall item s w, gen_push_front item s w = push_front item s w.
 Proof. core_eq. Qed.
+#[export] Hint Rewrite gen_push_front_eq : cg_eq.
 Check gen_push_front_eq.
 Print Assumptions gen_push_front_eq.
 
 (*@ fn try_push_front *)
 Lemma gen_try_push_front_eq : forall item s w, gen_try_push_front item s w = try_push_front item s w.
 Proof. core_eq. Qed.
+#[export] Hint Rewrite gen_try_push_front_eq : cg_eq.
 Check gen_try_push_front_eq.
 Print Assumptions gen_try_push_front_eq.
 
 (*@ fn pop_back *)
 Lemma gen_pop_back_eq : forall s w, gen_pop_back s w = pop_back s w.
 Proof. core_eq. Qed.
+#[export] Hint Rewrite gen_pop_back_eq : cg_eq.
 Check gen_pop_back_eq.
 Print Assumptions gen_pop_back_eq.
 
 (*@ fn pop_front *)
 Lemma gen_pop_front_eq : forall s w, gen_pop_front s w = pop_front s w.
 Proof. core_eq. Qed.
+#[export] Hint Rewrite gen_pop_front_eq : cg_eq.
 Check gen_pop_front_eq.
 Print Assumptions gen_pop_front_eq.
 
 (*@ fn swap *)
 Lemma gen_swap_eq : forall i j s w, gen_swap i j s w = swap i j s w.
 Proof. core_eq. Qed.
+#[export] Hint Rewrite gen_swap_eq : cg_eq.
 Check gen_swap_eq.
 Print Assumptions gen_swap_eq.
 
 (*@ fn swap_remove_back *)
 Lemma gen_swap_remove_back_eq : forall index s w, gen_swap_remove_back index s w = swap_remove_back index s w.
 Proof. core_eq. Qed.
+#[export] Hint Rewrite gen_swap_remove_back_eq : cg_eq.
 Check gen_swap_remove_back_eq.
 Print Assumptions gen_swap_remove_back_eq.
 
 (*@ fn swap_remove_front *)
 Lemma gen_swap_remove_front_eq : forall index s w, gen_swap_remove_front index s w = swap_remove_front index s w.
 Proof. core_eq. Qed.
+#[export] Hint Rewrite gen_swap_remove_front_eq : cg_eq.
 Check gen_swap_remove_front_eq.
 Print Assumptions gen_swap_remove_front_eq.
 
 (*@ fn truncate_back *)
 Lemma gen_truncate_back_eq : forall n s w, gen_truncate_back n s w = truncate_back n s w.
 Proof. core_eq. Qed.
+#[export] Hint Rewrite gen_truncate_back_eq : cg_eq.
 Check gen_truncate_back_eq.
 Print Assumptions gen_truncate_back_eq.
 
 (*@ fn truncate_front *)
 Lemma gen_truncate_front_eq : forall n s w, gen_truncate_front n s w = truncate_front n s w.
 Proof. core_eq. Qed.
+#[export] Hint Rewrite gen_truncate_front_eq : cg_eq.
 Check gen_truncate_front_eq.
 Print Assumptions gen_truncate_front_eq.
 
 (*@ fn clear *)
 Lemma gen_clear_eq : forall s w, gen_clear s w = clear s w.
 Proof. core_eq. Qed.
+#[export] Hint Rewrite gen_clear_eq : cg_eq.
 Check gen_clear_eq.
 Print Assumptions gen_clear_eq.
 
 (*@ fn remove *)
 Lemma gen_remove_eq : forall index s w, gen_remove index s w = remove index s w.
 Proof. core_eq. Qed.
+#[export] Hint Rewrite gen_remove_eq : cg_eq.
 Check gen_remove_eq.
 Print Assumptions gen_remove_eq.
 
 (*@ fn as_slices *)
 Lemma gen_as_slices_eq : forall s w, gen_as_slices s w = as_slices s w.
 Proof. core_eq. Qed.
+#[export] Hint Rewrite gen_as_slices_eq : cg_eq.
 Check gen_as_slices_eq.
 Print Assumptions gen_as_slices_eq.
 
 (*@ fn as_mut_slices *)
 Lemma gen_as_mut_slices_eq : forall s w, gen_as_mut_slices s w = as_mut_slices s w.
 Proof. core_eq. Qed.
+#[export] Hint Rewrite gen_as_mut_slices_eq : cg_eq.
 Check gen_as_mut_slices_eq.
 Print Assumptions gen_as_mut_slices_eq.
 
 (*@ fn slices_uninit_mut *)
 Lemma gen_slices_uninit_mut_eq : forall s w, gen_slices_uninit_mut s w = slices_uninit_mut s w.
 Proof. core_eq. Qed.
+#[export] Hint Rewrite gen_slices_uninit_mut_eq : cg_eq.
 Check gen_slices_uninit_mut_eq.
 Print Assumptions gen_slices_uninit_mut_eq.
 
 (*@ fn make_contiguous *)
 Lemma gen_make_contiguous_eq : forall s w, gen_make_contiguous s w = make_contiguous s w.
 Proof. core_eq. Qed.
+#[export] Hint Rewrite gen_make_contiguous_eq : cg_eq.
 Check gen_make_contiguous_eq.
 Print Assumptions gen_make_contiguous_eq.
+
+(*@ fn drop_range *)
+Lemma gen_drop_range_eq : forall x1 x2 s w, gen_drop_range x1 x2 s w = drop_range x1 x2 s w.
+Proof. core_eq_mod gen_drop_range drop_range. Qed.
+#[export] Hint Rewrite gen_drop_range_eq : cg_eq.
+Check gen_drop_range_eq.
+Print Assumptions gen_drop_range_eq.
+
+(*@ fn fill_spare *)
+Lemma gen_fill_spare_loop1_eq : forall fuel y1 s w, gen_fill_spare_loop1 fuel y1 s w = fill_spare_loop fuel y1 s w.
+Proof. loop_eq gen_fill_spare_loop1 fill_spare_loop. Qed.
+#[export] Hint Rewrite gen_fill_spare_loop1_eq : cg_eq.
+Check gen_fill_spare_loop1_eq.
+Print Assumptions gen_fill_spare_loop1_eq.
+
+Lemma gen_fill_spare_eq : forall x1 s w, gen_fill_spare x1 s w = fill_spare x1 s w.
+Proof. core_eq_mod gen_fill_spare fill_spare. Qed.
+#[export] Hint Rewrite gen_fill_spare_eq : cg_eq.
+Check gen_fill_spare_eq.
+Print Assumptions gen_fill_spare_eq.
+
+(*@ fn fill *)
+Lemma gen_fill_eq : forall x1 s w, gen_fill x1 s w = fill x1 s w.
+Proof. core_eq_mod gen_fill fill. Qed.
+#[export] Hint Rewrite gen_fill_eq : cg_eq.
+Check gen_fill_eq.
+Print Assumptions gen_fill_eq.
+
+(*@ fn fill_spare_with *)
+Lemma gen_fill_spare_with_loop1_eq : forall fuel s w, gen_fill_spare_with_loop1 fuel s w = fill_spare_with_loop fuel s w.
+Proof. loop_eq gen_fill_spare_with_loop1 fill_spare_with_loop. Qed.
+#[export] Hint Rewrite gen_fill_spare_with_loop1_eq : cg_eq.
+Check gen_fill_spare_with_loop1_eq.
+Print Assumptions gen_fill_spare_with_loop1_eq.
+
+Lemma gen_fill_spare_with_eq : forall s w, gen_fill_spare_with s w = fill_spare_with s w.
+Proof. core_eq_mod gen_fill_spare_with fill_spare_with. Qed.
+#[export] Hint Rewrite gen_fill_spare_with_eq : cg_eq.
+Check gen_fill_spare_with_eq.
+Print Assumptions gen_fill_spare_with_eq.
+
+(*@ fn fill_with *)
+Lemma gen_fill_with_eq : forall s w, gen_fill_with s w = fill_with s w.
+Proof. core_eq_mod gen_fill_with fill_with. Qed.
+#[export] Hint Rewrite gen_fill_with_eq : cg_eq.
+Check gen_fill_with_eq.
+Print Assumptions gen_fill_with_eq.
+
+(*@ fn translate_range_bounds *)
+Lemma gen_translate_range_bounds_eq : forall x1 x2 s w, gen_translate_range_bounds x1 x2 s w = translate_range_bounds x1 x2 s w.
+Proof. core_eq_mod gen_translate_range_bounds translate_range_bounds. Qed.
+#[export] Hint Rewrite gen_translate_range_bounds_eq : cg_eq.
+Check gen_translate_range_bounds_eq.
+Print Assumptions gen_translate_range_bounds_eq.
+
+(*@ fn Drain_over_range *)
+Lemma gen_Drain_over_range_eq : forall x1 x2 s w, gen_Drain_over_range x1 x2 s w = drain_over_range x1 x2 s w.
+Proof. core_eq_mod gen_Drain_over_range drain_over_range. Qed.
+#[export] Hint Rewrite gen_Drain_over_range_eq : cg_eq.
+Check gen_Drain_over_range_eq.
+Print Assumptions gen_Drain_over_range_eq.
+
+(*@ fn drain *)
+Lemma gen_drain_eq : forall x1 x2 s w, gen_drain x1 x2 s w = drain_over_range x1 x2 s w.
+Proof. core_eq_mod gen_drain drain_over_range. Qed.
+#[export] Hint Rewrite gen_drain_eq : cg_eq.
+Check gen_drain_eq.
+Print Assumptions gen_drain_eq.
+
+(*@ fn Iter_empty *)
+Lemma gen_Iter_empty_eq : forall s w, gen_Iter_empty s w = ret iter_empty s w.
+Proof. core_eq_mod gen_Iter_empty iter_empty. Qed.
+#[export] Hint Rewrite gen_Iter_empty_eq : cg_eq.
+Check gen_Iter_empty_eq.
+Print Assumptions gen_Iter_empty_eq.
+
+(*@ fn Iter_new *)
+Lemma gen_Iter_new_eq : forall s w, gen_Iter_new s w = iter_new s w.
+Proof. core_eq_mod gen_Iter_new iter_new. Qed.
+#[export] Hint Rewrite gen_Iter_new_eq : cg_eq.
+Check gen_Iter_new_eq.
+Print Assumptions gen_Iter_new_eq.
+
+(*@ fn slice_take *)
+Lemma gen_slice_take_eq : forall x1 x2 x3 s w, gen_slice_take x1 x2 x3 s w = slice_take x1 x2 x3 s w.
+Proof. core_eq_mod gen_slice_take slice_take. Qed.
+#[export] Hint Rewrite gen_slice_take_eq : cg_eq.
+Check gen_slice_take_eq.
+Print Assumptions gen_slice_take_eq.
+
+(*@ fn Iter_advance_front_by *)
+Lemma gen_Iter_advance_front_by_eq : forall x1 x2 s w, gen_Iter_advance_front_by x1 x2 s w = advance_front_by x1 x2 s w.
+Proof. core_eq_mod gen_Iter_advance_front_by advance_front_by. Qed.
+#[export] Hint Rewrite gen_Iter_advance_front_by_eq : cg_eq.
+Check gen_Iter_advance_front_by_eq.
+Print Assumptions gen_Iter_advance_front_by_eq.
+
+(*@ fn Iter_advance_back_by *)
+Lemma gen_Iter_advance_back_by_eq : forall x1 x2 s w, gen_Iter_advance_back_by x1 x2 s w = advance_back_by x1 x2 s w.
+Proof. core_eq_mod gen_Iter_advance_back_by advance_back_by. Qed.
+#[export] Hint Rewrite gen_Iter_advance_back_by_eq : cg_eq.
+Check gen_Iter_advance_back_by_eq.
+Print Assumptions gen_Iter_advance_back_by_eq.
+
+(*@ fn Iter_over_range *)
+Lemma gen_Iter_over_range_eq : forall x1 x2 s w, gen_Iter_over_range x1 x2 s w = iter_over_range x1 x2 s w.
+Proof. core_eq_mod gen_Iter_over_range iter_over_range. Qed.
+#[export] Hint Rewrite gen_Iter_over_range_eq : cg_eq.
+Check gen_Iter_over_range_eq.
+Print Assumptions gen_Iter_over_range_eq.
+
+(*@ fn range *)
+Lemma gen_range_eq : forall x1 x2 s w, gen_range x1 x2 s w = iter_over_range x1 x2 s w.
+Proof. core_eq_mod gen_range iter_over_range. Qed.
+#[export] Hint Rewrite gen_range_eq : cg_eq.
+Check gen_range_eq.
+Print Assumptions gen_range_eq.
+
+(*@ fn IterMut_empty *)
+Lemma gen_IterMut_empty_eq : forall s w, gen_IterMut_empty s w = ret iter_mut_empty s w.
+Proof. core_eq_mod gen_IterMut_empty iter_mut_empty. Qed.
+#[export] Hint Rewrite gen_IterMut_empty_eq : cg_eq.
+Check gen_IterMut_empty_eq.
+Print Assumptions gen_IterMut_empty_eq.
+
+(*@ fn IterMut_new *)
+Lemma gen_IterMut_new_eq : forall s w, gen_IterMut_new s w = iter_mut_new s w.
+Proof. core_eq_mod gen_IterMut_new iter_mut_new. Qed.
+#[export] Hint Rewrite gen_IterMut_new_eq : cg_eq.
+Check gen_IterMut_new_eq.
+Print Assumptions gen_IterMut_new_eq.
+
+(*@ fn slice_take_mut *)
+Lemma gen_slice_take_mut_eq : forall x1 x2 x3 s w, gen_slice_take_mut x1 x2 x3 s w = slice_take_mut x1 x2 x3 s w.
+Proof. core_eq_mod gen_slice_take_mut slice_take_mut. Qed.
+#[export] Hint Rewrite gen_slice_take_mut_eq : cg_eq.
+Check gen_slice_take_mut_eq.
+Print Assumptions gen_slice_take_mut_eq.
+
+(*@ fn IterMut_advance_front_by *)
+Lemma gen_IterMut_advance_front_by_eq : forall x1 x2 s w, gen_IterMut_advance_front_by x1 x2 s w = advance_front_by x1 x2 s w.
+Proof. core_eq_mod gen_IterMut_advance_front_by advance_front_by. Qed.
+#[export] Hint Rewrite gen_IterMut_advance_front_by_eq : cg_eq.
+Check gen_IterMut_advance_front_by_eq.
+Print Assumptions gen_IterMut_advance_front_by_eq.
+
+(*@ fn IterMut_advance_back_by *)
+Lemma gen_IterMut_advance_back_by_eq : forall x1 x2 s w, gen_IterMut_advance_back_by x1 x2 s w = advance_back_by x1 x2 s w.
+Proof. core_eq_mod gen_IterMut_advance_back_by advance_back_by. Qed.
+#[export] Hint Rewrite gen_IterMut_advance_back_by_eq : cg_eq.
+Check gen_IterMut_advance_back_by_eq.
+Print Assumptions gen_IterMut_advance_back_by_eq.
+
+(*@ fn IterMut_over_range *)
+Lemma gen_IterMut_over_range_eq : forall x1 x2 s w, gen_IterMut_over_range x1 x2 s w = iter_mut_over_range x1 x2 s w.
+Proof. core_eq_mod gen_IterMut_over_range iter_mut_over_range. Qed.
+#[export] Hint Rewrite gen_IterMut_over_range_eq : cg_eq.
+Check gen_IterMut_over_range_eq.
+Print Assumptions gen_IterMut_over_range_eq.
+
+(*@ fn range_mut *)
+Lemma gen_range_mut_eq : forall x1 x2 s w, gen_range_mut x1 x2 s w = iter_mut_over_range x1 x2 s w.
+Proof. core_eq_mod gen_range_mut iter_mut_over_range. Qed.
+#[export] Hint Rewrite gen_range_mut_eq : cg_eq.
+Check gen_range_mut_eq.
+Print Assumptions gen_range_mut_eq.
+
+(*@ fn iter *)
+Lemma gen_iter_eq : forall s w, gen_iter s w = iter_new s w.
+Proof. core_eq_mod gen_iter iter_new. Qed.
+#[export] Hint Rewrite gen_iter_eq : cg_eq.
+Check gen_iter_eq.
+Print Assumptions gen_iter_eq.
+
+(*@ fn iter_mut *)
+Lemma gen_iter_mut_eq : forall s w, gen_iter_mut s w = iter_mut_new s w.
+Proof. core_eq_mod gen_iter_mut iter_mut_new. Qed.
+#[export] Hint Rewrite gen_iter_mut_eq : cg_eq.
+Check gen_iter_mut_eq.
+Print Assumptions gen_iter_mut_eq.
+
+(*@ fn slice_take_first *)
+Lemma gen_slice_take_first_eq : forall x1 s w, gen_slice_take_first x1 s w = ret (slice_take_first x1) s w.
+Proof. core_eq_mod gen_slice_take_first slice_take_first. Qed.
+#[export] Hint Rewrite gen_slice_take_first_eq : cg_eq.
+Check gen_slice_take_first_eq.
+Print Assumptions gen_slice_take_first_eq.
+
+(*@ fn slice_take_first_mut *)
+Lemma gen_slice_take_first_mut_eq : forall x1 s w, gen_slice_take_first_mut x1 s w = ret (slice_take_first_mut x1) s w.
+Proof. core_eq_mod gen_slice_take_first_mut slice_take_first_mut. Qed.
+#[export] Hint Rewrite gen_slice_take_first_mut_eq : cg_eq.
+Check gen_slice_take_first_mut_eq.
+Print Assumptions gen_slice_take_first_mut_eq.
+
+(*@ fn slice_take_last *)
+Lemma gen_slice_take_last_eq : forall x1 s w, gen_slice_take_last x1 s w = ret (slice_take_last x1) s w.
+Proof. core_eq_mod gen_slice_take_last slice_take_last. Qed.
+#[export] Hint Rewrite gen_slice_take_last_eq : cg_eq.
+Check gen_slice_take_last_eq.
+Print Assumptions gen_slice_take_last_eq.
+
+(*@ fn slice_take_last_mut *)
+Lemma gen_slice_take_last_mut_eq : forall x1 s w, gen_slice_take_last_mut x1 s w = ret (slice_take_last_mut x1) s w.
+Proof. core_eq_mod gen_slice_take_last_mut slice_take_last_mut. Qed.
+#[export] Hint Rewrite gen_slice_take_last_mut_eq : cg_eq.
+Check gen_slice_take_last_mut_eq.
+Print Assumptions gen_slice_take_last_mut_eq.
+
+(*@ fn Iter_next *)
+Lemma gen_Iter_next_eq : forall x1 s w, gen_Iter_next x1 s w = ret (iter_next x1) s w.
+Proof. core_eq_mod gen_Iter_next iter_next. Qed.
+#[export] Hint Rewrite gen_Iter_next_eq : cg_eq.
+Check gen_Iter_next_eq.
+Print Assumptions gen_Iter_next_eq.
+
+(*@ fn Iter_next_back *)
+Lemma gen_Iter_next_back_eq : forall x1 s w, gen_Iter_next_back x1 s w = ret (iter_next_back x1) s w.
+Proof. core_eq_mod gen_Iter_next_back iter_next_back. Qed.
+#[export] Hint Rewrite gen_Iter_next_back_eq : cg_eq.
+Check gen_Iter_next_back_eq.
+Print Assumptions gen_Iter_next_back_eq.
+
+(*@ fn Iter_len *)
+Lemma gen_Iter_len_eq : forall x1 s w, gen_Iter_len x1 s w = iter_len x1 s w.
+Proof. core_eq_mod gen_Iter_len iter_len. Qed.
+#[export] Hint Rewrite gen_Iter_len_eq : cg_eq.
+Check gen_Iter_len_eq.
+Print Assumptions gen_Iter_len_eq.
+
+(*@ fn Iter_clone *)
+Lemma gen_Iter_clone_eq : forall x1 s w, gen_Iter_clone x1 s w = ret (iter_clone x1) s w.
+Proof. core_eq_mod gen_Iter_clone iter_clone. Qed.
+#[export] Hint Rewrite gen_Iter_clone_eq : cg_eq.
+Check gen_Iter_clone_eq.
+Print Assumptions gen_Iter_clone_eq.
+
+(*@ fn Iter_default *)
+Lemma gen_Iter_default_eq : forall s w, gen_Iter_default s w = ret iter_default s w.
+Proof. core_eq_mod gen_Iter_default iter_default. Qed.
+#[export] Hint Rewrite gen_Iter_default_eq : cg_eq.
+Check gen_Iter_default_eq.
+Print Assumptions gen_Iter_default_eq.
+
+(*@ fn IterMut_next *)
+Lemma gen_IterMut_next_eq : forall x1 s w, gen_IterMut_next x1 s w = ret (iter_mut_next x1) s w.
+Proof. core_eq_mod gen_IterMut_next iter_mut_next. Qed.
+#[export] Hint Rewrite gen_IterMut_next_eq : cg_eq.
+Check gen_IterMut_next_eq.
+Print Assumptions gen_IterMut_next_eq.
+
+(*@ fn IterMut_next_back *)
+Lemma gen_IterMut_next_back_eq : forall x1 s w, gen_IterMut_next_back x1 s w = ret (iter_mut_next_back x1) s w.
+Proof. core_eq_mod gen_IterMut_next_back iter_mut_next_back. Qed.
+#[export] Hint Rewrite gen_IterMut_next_back_eq : cg_eq.
+Check gen_IterMut_next_back_eq.
+Print Assumptions gen_IterMut_next_back_eq.
+
+(*@ fn IterMut_len *)
+Lemma gen_IterMut_len_eq : forall x1 s w, gen_IterMut_len x1 s w = iter_mut_len x1 s w.
+Proof. core_eq_mod gen_IterMut_len iter_mut_len. Qed.
+#[export] Hint Rewrite gen_IterMut_len_eq : cg_eq.
+Check gen_IterMut_len_eq.
+Print Assumptions gen_IterMut_len_eq.
+
+(*@ fn IterMut_default *)
+Lemma gen_IterMut_default_eq : forall s w, gen_IterMut_default s w = ret iter_mut_default s w.
+Proof. core_eq_mod gen_IterMut_default iter_mut_default. Qed.
+#[export] Hint Rewrite gen_IterMut_default_eq : cg_eq.
+Check gen_IterMut_default_eq.
+Print Assumptions gen_IterMut_default_eq.
+
+(*@ fn IntoIter_next *)
+Lemma gen_IntoIter_next_eq : forall s w, gen_IntoIter_next s w = into_iter_next s w.
+Proof. core_eq_mod gen_IntoIter_next into_iter_next. Qed.
+#[export] Hint Rewrite gen_IntoIter_next_eq : cg_eq.
+Check gen_IntoIter_next_eq.
+Print Assumptions gen_IntoIter_next_eq.
+
+(*@ fn IntoIter_next_back *)
+Lemma gen_IntoIter_next_back_eq : forall s w, gen_IntoIter_next_back s w = into_iter_next_back s w.
+Proof. core_eq_mod gen_IntoIter_next_back into_iter_next_back. Qed.
+#[export] Hint Rewrite gen_IntoIter_next_back_eq : cg_eq.
+Check gen_IntoIter_next_back_eq.
+Print Assumptions gen_IntoIter_next_back_eq.
+
+(*@ fn IntoIter_len *)
+Lemma gen_IntoIter_len_eq : forall s w, gen_IntoIter_len s w = into_iter_len s w.
+Proof. core_eq_mod gen_IntoIter_len into_iter_len. Qed.
+#[export] Hint Rewrite gen_IntoIter_len_eq : cg_eq.
+Check gen_IntoIter_len_eq.
+Print Assumptions gen_IntoIter_len_eq.
+
+(*@ fn CircularSlicePtr_new *)
+Lemma gen_CircularSlicePtr_new_eq : forall n s w, gen_CircularSlicePtr_new (mkS 0 n) s w = ret (csp_new n) s w.
+Proof. core_eq_mod gen_CircularSlicePtr_new csp_new. Qed.
+#[export] Hint Rewrite gen_CircularSlicePtr_new_eq : cg_eq.
+Check gen_CircularSlicePtr_new_eq.
+Print Assumptions gen_CircularSlicePtr_new_eq.
+
+(*@ fn CircularSlicePtr_as_ptr *)
+Lemma gen_CircularSlicePtr_as_ptr_eq : forall x1 s w, gen_CircularSlicePtr_as_ptr x1 s w = csp_as_ptr x1 s w.
+Proof. core_eq_mod gen_CircularSlicePtr_as_ptr csp_as_ptr. Qed.
+#[export] Hint Rewrite gen_CircularSlicePtr_as_ptr_eq : cg_eq.
+Check gen_CircularSlicePtr_as_ptr_eq.
+Print Assumptions gen_CircularSlicePtr_as_ptr_eq.
+
+(*@ fn CircularSlicePtr_as_mut_ptr *)
+Lemma gen_CircularSlicePtr_as_mut_ptr_eq : forall x1 s w, gen_CircularSlicePtr_as_mut_ptr x1 s w = csp_as_ptr x1 s w.
+Proof. core_eq_mod gen_CircularSlicePtr_as_mut_ptr csp_as_ptr. Qed.
+#[export] Hint Rewrite gen_CircularSlicePtr_as_mut_ptr_eq : cg_eq.
+Check gen_CircularSlicePtr_as_mut_ptr_eq.
+Print Assumptions gen_CircularSlicePtr_as_mut_ptr_eq.
+
+(*@ fn CircularSlicePtr_available_len *)
+Lemma gen_CircularSlicePtr_available_len_eq : forall x1 s w, gen_CircularSlicePtr_available_len x1 s w = csp_available_len x1 s w.
+Proof. core_eq_mod gen_CircularSlicePtr_available_len csp_available_len. Qed.
+#[export] Hint Rewrite gen_CircularSlicePtr_available_len_eq : cg_eq.
+Check gen_CircularSlicePtr_available_len_eq.
+Print Assumptions gen_CircularSlicePtr_available_len_eq.
+
+(*@ fn CircularSlicePtr_add *)
+Lemma gen_CircularSlicePtr_add_eq : forall x1 x2 s w, gen_CircularSlicePtr_add x1 x2 s w = csp_add x1 x2 s w.
+Proof. core_eq_mod gen_CircularSlicePtr_add csp_add. Qed.
+#[export] Hint Rewrite gen_CircularSlicePtr_add_eq : cg_eq.
+Check gen_CircularSlicePtr_add_eq.
+Print Assumptions gen_CircularSlicePtr_add_eq.
+
+(*@ fn Drain_read *)
+Lemma gen_Drain_read_eq : forall x1 x2 s w, gen_Drain_read x1 x2 s w = drain_read x1 x2 s w.
+Proof. core_eq_mod gen_Drain_read drain_read. Qed.
+#[export] Hint Rewrite gen_Drain_read_eq : cg_eq.
+Check gen_Drain_read_eq.
+Print Assumptions gen_Drain_read_eq.
+
+(*@ fn Drain_as_slices *)
+Lemma gen_Drain_as_slices_eq : forall x1 s w, gen_Drain_as_slices x1 s w = drain_as_slices x1 s w.
+Proof. core_eq_mod gen_Drain_as_slices drain_as_slices. Qed.
+#[export] Hint Rewrite gen_Drain_as_slices_eq : cg_eq.
+Check gen_Drain_as_slices_eq.
+Print Assumptions gen_Drain_as_slices_eq.
+
+(*@ fn Drain_as_mut_slices *)
+Lemma gen_Drain_as_mut_slices_eq : forall x1 s w, gen_Drain_as_mut_slices x1 s w = drain_as_mut_slices x1 s w.
+Proof. core_eq_mod gen_Drain_as_mut_slices drain_as_mut_slices. Qed.
+#[export] Hint Rewrite gen_Drain_as_mut_slices_eq : cg_eq.
+Check gen_Drain_as_mut_slices_eq.
+Print Assumptions gen_Drain_as_mut_slices_eq.
+
+(*@ fn Drain_next *)
+Lemma gen_Drain_next_eq : forall x1 s w, gen_Drain_next x1 s w = drain_next x1 s w.
+Proof. core_eq_mod gen_Drain_next drain_next. Qed.
+#[export] Hint Rewrite gen_Drain_next_eq : cg_eq.
+Check gen_Drain_next_eq.
+Print Assumptions gen_Drain_next_eq.
+
+(*@ fn Drain_next_back *)
+Lemma gen_Drain_next_back_eq : forall x1 s w, gen_Drain_next_back x1 s w = drain_next_back x1 s w.
+Proof. core_eq_mod gen_Drain_next_back drain_next_back. Qed.
+#[export] Hint Rewrite gen_Drain_next_back_eq : cg_eq.
+Check gen_Drain_next_back_eq.
+Print Assumptions gen_Drain_next_back_eq.
+
+(*@ fn Drain_len *)
+Lemma gen_Drain_len_eq : forall x1 s w, gen_Drain_len x1 s w = ret (drain_len x1) s w.
+Proof. core_eq_mod gen_Drain_len drain_len. Qed.
+#[export] Hint Rewrite gen_Drain_len_eq : cg_eq.
+Check gen_Drain_len_eq.
+Print Assumptions gen_Drain_len_eq.
+
+(*@ fn Drain_drop *)
+Lemma gen_Drain_drop_loop1_eq : forall fuel y1 y2 y3 s w, gen_Drain_drop_loop1 fuel y1 y2 y3 s w = drain_fill_loop fuel y2 y3 y1 s w.
+Proof. loop_eq gen_Drain_drop_loop1 drain_fill_loop. Qed.
+#[export] Hint Rewrite gen_Drain_drop_loop1_eq : cg_eq.
+Check gen_Drain_drop_loop1_eq.
+Print Assumptions gen_Drain_drop_loop1_eq.
+
+Lemma gen_Drain_drop_eq : forall x1 s w, gen_Drain_drop x1 s w = drain_drop x1 s w.
+Proof. core_eq_mod gen_Drain_drop drain_drop. Qed.
+#[export] Hint Rewrite gen_Drain_drop_eq : cg_eq.
+Check gen_Drain_drop_eq.
+Print Assumptions gen_Drain_drop_eq.
+
+(*@ fn index *)
+Lemma gen_index_eq : forall x1 s w, gen_index x1 s w = index x1 s w.
+Proof. core_eq_mod gen_index index. Qed.
+#[export] Hint Rewrite gen_index_eq : cg_eq.
+Check gen_index_eq.
+Print Assumptions gen_index_eq.
+
+(*@ fn index_mut *)
+Lemma gen_index_mut_eq : forall x1 s w, gen_index_mut x1 s w = index_mut x1 s w.
+Proof. core_eq_mod gen_index_mut index_mut. Qed.
+#[export] Hint Rewrite gen_index_mut_eq : cg_eq.
+Check gen_index_mut_eq.
+Print Assumptions gen_index_mut_eq.
+
+(*@ fn buf_drop *)
+Lemma gen_buf_drop_eq : forall s w, gen_buf_drop s w = drop_buf s w.
+Proof. core_eq_mod gen_buf_drop drop_buf. Qed.
+#[export] Hint Rewrite gen_buf_drop_eq : cg_eq.
+Check gen_buf_drop_eq.
+Print Assumptions gen_buf_drop_eq.
+
+(*@ fn extend_from_slice *)
+Lemma gen_extend_from_slice_eq : forall x1 s w, 0 <= cap s -> gen_extend_from_slice x1 s w = extend_from_slice x1 s w.
+Proof. core_eq_mod gen_extend_from_slice extend_from_slice. Qed.
+#[export] Hint Rewrite gen_extend_from_slice_eq using (cbn [cap]; assumption) : cg_eq.
+Check gen_extend_from_slice_eq.
+Print Assumptions gen_extend_from_slice_eq.
+
+(*@ fn io_write *)
+Lemma gen_io_write_eq : forall x1 s w, 0 <= cap s -> gen_io_write x1 s w = io_write x1 s w.
+Proof. core_eq_mod gen_io_write io_write. Qed.
+#[export] Hint Rewrite gen_io_write_eq using (cbn [cap]; assumption) : cg_eq.
+Check gen_io_write_eq.
+Print Assumptions gen_io_write_eq.
+
+(*@ fn io_flush *)
+Lemma gen_io_flush_eq : forall s w, gen_io_flush s w = io_flush s w.
+Proof. core_eq_mod gen_io_flush io_flush. Qed.
+#[export] Hint Rewrite gen_io_flush_eq : cg_eq.
+Check gen_io_flush_eq.
+Print Assumptions gen_io_flush_eq.
+
+(*@ fn io_read *)
+Lemma gen_io_read_eq : forall x1 s w, gen_io_read x1 s w = (r <- io_read x1;; ret (snd r, fst r)) s w.
+Proof. core_eq_mod gen_io_read io_read. Qed.
+#[export] Hint Rewrite gen_io_read_eq : cg_eq.
+Check gen_io_read_eq.
+Print Assumptions gen_io_read_eq.
+
+(*@ fn io_fill_buf *)
+Lemma gen_io_fill_buf_eq : forall s w, gen_io_fill_buf s w = io_fill_buf s w.
+Proof. core_eq_mod gen_io_fill_buf io_fill_buf. Qed.
+#[export] Hint Rewrite gen_io_fill_buf_eq : cg_eq.
+Check gen_io_fill_buf_eq.
+Print Assumptions gen_io_fill_buf_eq.
+
+(*@ fn io_consume *)
+Lemma gen_io_consume_eq : forall x1 s w, gen_io_consume x1 s w = io_consume x1 s w.
+Proof. core_eq_mod gen_io_consume io_consume. Qed.
+#[export] Hint Rewrite gen_io_consume_eq : cg_eq.
+Check gen_io_consume_eq.
+Print Assumptions gen_io_consume_eq.
+
+(*@ fn eio_write *)
+Lemma gen_eio_write_eq : forall x1 s w, 0 <= cap s -> gen_eio_write x1 s w = eio_write x1 s w.
+Proof. core_eq_mod gen_eio_write eio_write. Qed.
+#[export] Hint Rewrite gen_eio_write_eq using (cbn [cap]; assumption) : cg_eq.
+Check gen_eio_write_eq.
+Print Assumptions gen_eio_write_eq.
+
+(*@ fn eio_flush *)
+Lemma gen_eio_flush_eq : forall s w, gen_eio_flush s w = eio_flush s w.
+Proof. core_eq_mod gen_eio_flush eio_flush. Qed.
+#[export] Hint Rewrite gen_eio_flush_eq : cg_eq.
+Check gen_eio_flush_eq.
+Print Assumptions gen_eio_flush_eq.
+
+(*@ fn eio_read *)
+Lemma gen_eio_read_eq : forall x1 s w, gen_eio_read x1 s w = (r <- eio_read x1;; ret (snd r, fst r)) s w.
+Proof. core_eq_mod gen_eio_read eio_read. Qed.
+#[export] Hint Rewrite gen_eio_read_eq : cg_eq.
+Check gen_eio_read_eq.
+Print Assumptions gen_eio_read_eq.
+
+(*@ fn eio_fill_buf *)
+Lemma gen_eio_fill_buf_eq : forall s w, gen_eio_fill_buf s w = eio_fill_buf s w.
+Proof. core_eq_mod gen_eio_fill_buf eio_fill_buf. Qed.
+#[export] Hint Rewrite gen_eio_fill_buf_eq : cg_eq.
+Check gen_eio_fill_buf_eq.
+Print Assumptions gen_eio_fill_buf_eq.
+
+(*@ fn eio_consume *)
+Lemma gen_eio_consume_eq : forall x1 s w, gen_eio_consume x1 s w = eio_consume x1 s w.
+Proof. core_eq_mod gen_eio_consume eio_consume. Qed.
+#[export] Hint Rewrite gen_eio_consume_eq : cg_eq.
+Check gen_eio_consume_eq.
+Print Assumptions gen_eio_consume_eq.
+
+(*@ fn aio_write *)
+Lemma gen_aio_write_eq : forall x1 s w, 0 <= cap s -> gen_aio_write x1 s w = aio_write x1 s w.
+Proof. core_eq_mod gen_aio_write aio_write. Qed.
+#[export] Hint Rewrite gen_aio_write_eq using (cbn [cap]; assumption) : cg_eq.
+Check gen_aio_write_eq.
+Print Assumptions gen_aio_write_eq.
+
+(*@ fn aio_flush *)
+Lemma gen_aio_flush_eq : forall s w, gen_aio_flush s w = aio_flush s w.
+Proof. core_eq_mod gen_aio_flush aio_flush. Qed.
+#[export] Hint Rewrite gen_aio_flush_eq : cg_eq.
+Check gen_aio_flush_eq.
+Print Assumptions gen_aio_flush_eq.
+
+(*@ fn aio_read *)
+Lemma gen_aio_read_eq : forall x1 s w, gen_aio_read x1 s w = (r <- aio_read x1;; ret (snd r, fst r)) s w.
+Proof. core_eq_mod gen_aio_read aio_read. Qed.
+#[export] Hint Rewrite gen_aio_read_eq : cg_eq.
+Check gen_aio_read_eq.
+Print Assumptions gen_aio_read_eq.
+
+(*@ fn aio_fill_buf *)
+Lemma gen_aio_fill_buf_eq : forall s w, gen_aio_fill_buf s w = aio_fill_buf s w.
+Proof. core_eq_mod gen_aio_fill_buf aio_fill_buf. Qed.
+#[export] Hint Rewrite gen_aio_fill_buf_eq : cg_eq.
+Check gen_aio_fill_buf_eq.
+Print Assumptions gen_aio_fill_buf_eq.
+
+(*@ fn aio_consume *)
+Lemma gen_aio_consume_eq : forall x1 s w, gen_aio_consume x1 s w = aio_consume x1 s w.
+Proof. core_eq_mod gen_aio_consume aio_consume. Qed.
+#[export] Hint Rewrite gen_aio_consume_eq : cg_eq.
+Check gen_aio_consume_eq.
+Print Assumptions gen_aio_consume_eq.
 
